@@ -31,7 +31,7 @@ func (c20) NumCases(tier string) int {
 	if tier == "thorough" {
 		return c20ShortHistories() + 300000
 	}
-	return c20ShortHistories() + 12000
+	return c20ShortHistories() + 40000
 }
 
 var c20Ordinary = []string{"x", "X", "_y1", "IFS", "HOME", "x0", "v10", "é", "Ł", "A", "I"}
